@@ -69,8 +69,9 @@ def gen_plan(seed, tier="quick"):
     if form == "cbin":
         # a complete cbin/ch pair holding `frames` frames; metadata announces `claimed`
         claimed = max(1, frames + r.choice([-1, 1]) * r.choice([1, 2, 10, max(1, frames // 2)]))
-        plan.update({"frames": frames, "claimed": claimed, "meta": "complete", "bytes": frames * frame,
-                     "chunk": r.choice([0.001, 0.005, 0.01, 1.0]), "bursts": []})
+        plan.update({"frames": frames, "claimed": claimed, "meta": r.choice(["complete", "complete", "complete", "none"]),
+                     "bytes": frames * frame, "chunk": r.choice([0.001, 0.005, 0.01, 1.0]), "bursts": [],
+                     "two_phase": False})
         return plan
     trailing = r.choice([0, 1, frame // 2 - 1, frame // 2, frame // 2 + 1, frame - 1, r.randrange(frame), r.randrange(frame)])
     trailing = max(0, min(frame - 1, trailing))
@@ -92,7 +93,15 @@ def gen_plan(seed, tier="quick"):
         for _ in range(r.choice([1, 1, 2, 3, 6])):
             bursts.append([r.randrange(0, 60), r.choice([1, 2, frame - 1, frame, frame + 1, 3 * frame, r.randrange(1, 40 * frame)])])
         bursts.sort()
-    plan.update({"frames": frames, "bytes": total, "claimed": claimed, "meta": meta, "bursts": bursts})
+    # two-phase: Reader(path, open=False), the writer appends, then sr.open() -- what is present
+    # when open() is called is what must be exposed
+    two_phase = r.random() < 0.25
+    pre_open = []
+    if two_phase:
+        for _ in range(r.choice([1, 1, 2])):
+            pre_open.append(r.choice([1, frame - 1, frame, frame + 1, 5 * frame + 3, r.randrange(1, 40 * frame)]))
+    plan.update({"frames": frames, "bytes": total, "claimed": claimed, "meta": meta, "bursts": bursts,
+                 "two_phase": two_phase, "pre_open": pre_open})
     return plan
 
 
@@ -136,7 +145,7 @@ def _run(plan, root):
     nc = nap + 1
     frame = nc * 2
     fs = world.meta_fs(plan["fixture"])
-    total_final = plan["bytes"] + sum(b for _, b in plan["bursts"])
+    total_final = plan["bytes"] + sum(b for _, b in plan["bursts"]) + sum(plan.get("pre_open", []))
     nfr_stream = total_final // frame + 2
     data = world.make_data(plan["data_seed"], nfr_stream, nap)
     stream = data.tobytes()
@@ -216,10 +225,24 @@ def _run(plan, root):
     B0 = state["size"]
     sr = None
     err = None
+    two_phase = bool(plan.get("two_phase"))
     sys.settrace(global_trace)
     try:
         try:
-            sr = cls(target, ignore_warnings=plan["ignore_warnings"], sort=plan["sort"])
+            if two_phase:
+                sr = cls(target, open=False, ignore_warnings=plan["ignore_warnings"], sort=plan["sort"])
+                sys.settrace(None)
+                for nb in plan.get("pre_open", []):      # the writer goes on between construction and open()
+                    if wf is not None:
+                        wf.write(stream[state["size"]: state["size"] + nb])
+                        wf.flush()
+                        state["size"] += nb
+                        fault("growth_between_construction_and_open")
+                B0 = state["size"]
+                sys.settrace(global_trace)
+                sr.open()
+            else:
+                sr = cls(target, ignore_warnings=plan["ignore_warnings"], sort=plan["sort"])
         finally:
             sys.settrace(None)
     except Exception as e:
@@ -234,7 +257,7 @@ def _run(plan, root):
         probe("file_grew_between_traced_lines")
     stats["sim_time"] = (B1 // frame) / fs
 
-    sigbase = f"{plan['reader']}:{plan['form']}:{plan['meta']}"
+    sigbase = f"{plan['reader']}:{plan['form']}:{plan['meta']}" + (":two-phase" if two_phase else "")
     viol = None
     try:
         if err is not None:
@@ -253,7 +276,7 @@ def _run(plan, root):
     if trailing or plan["claimed"] * frame != plan["bytes"] or plan["meta"] == "none":
         gclass = "none" if not state["grown_at"] else ("one" if len(state["grown_at"]) == 1 else "many")
         stats["distinct"].append(
-            f"{plan['reader']}|{plan['form']}|{plan['meta']}|{np.sign(plan['bytes'] - plan['claimed'] * frame)}|t{trailing}|f{frame}|g{gclass}|w{int(plan['ignore_warnings'])}")
+            f"{plan['reader']}{'2' if two_phase else ''}|{plan['form']}|{plan['meta']}|{np.sign(plan['bytes'] - plan['claimed'] * frame)}|t{trailing}|f{frame}|g{gclass}|w{int(plan['ignore_warnings'])}")
     stats["outcomes"]["violation" if viol else "held"] = 1
     return {"violation": viol, "stats": stats, "digest": digest(log), "sample": {"plan": plan, "log": log[:6]}}
 
